@@ -77,6 +77,10 @@ impl Check for C04 {
                 p.ops.insert(0, Op::Ext { prefix: format!("many{i}"), url: format!("urn:verif:many:{i}") });
             }
         }
+        if s.chance(1, 15) {
+            // a transformer that serialises with CR LF line ends (between the elements; strings are left alone)
+            p.end = End::FinalizeReplace(vec![(">\n<".into(), ">\r\n<".into())]);
+        }
         for op in &mut p.ops {
             match op {
                 Op::Ext { prefix, url } => {
@@ -161,8 +165,11 @@ impl Check for C04 {
             v.fail(d);
             return v;
         }
-        if let (End::FinalizeXml(_) | End::FinalizeMinified { .. }, Some(x)) = (&p.end, &tr.xml_out) {
+        if let (End::FinalizeXml(_) | End::FinalizeMinified { .. } | End::FinalizeReplace(_), Some(x)) = (&p.end, &tr.xml_out) {
             v.label("xml_transformer");
+            if x.contains('\r') {
+                v.nt("transformer_output_with_carriage_returns");
+            }
             if *x != xml {
                 v.fail("E57Reader::xml() differs from the XML the transformer returned");
                 return v;
